@@ -64,7 +64,21 @@ RULE = (
     'history = operation lists over UUIDs of equal value and different width through UUID()/from_bytes/'
     'from_16_bits/from_32_bits/register/AD/SDP/ATT with "just parsed serialises to its bytes" after every '
     'step. non-trivial = unit exercises a multi-byte length form, a flag bit, a nested element, a non-zero '
-    'field byte, or (history) follows an equal-valued UUID of another width; distinct by (class, bytes).'
+    'field byte, or (history) follows an equal-valued UUID of another width; distinct by (class, bytes). '
+    'Extension: (a) a second, small "big body" family per class of the L2CAP / ATT / SDP / AVRCP registries with a 516..700 byte '
+    'budget, so that the 16-bit length fields (C-frame length, SDP parameter length and AttributeListsByteCount, AVRCP item and '
+    'string lengths) take values >= 256 and ATT values reach ATT_MTU; (b) the record views ATT responses derive from their raw '
+    'list (information / handles_information / attributes) against a reference decode of the generated records, on the parsed '
+    'and on the constructed object; (c) L2CAP basic frame header with and without FCS (lengths 0/1/255/256/65533/65535, '
+    'reference CRC-16 anchored on the specification example) and configuration option lists (every option type, hint bit, '
+    'unknown types, empty and 255-byte values), alone and inside Configure Request/Response; (d) AVRCP-specific AV/C framing: '
+    'registered command/response classes, Rejected / NotImplemented responses and opaque parameters of 0/1/255/256/257/512/65535 '
+    'bytes through avrcp.Protocol.send_avrcp_command / send_avrcp_response / send_rejected_avrcp_response (captured below the '
+    'protocol) against the reference VENDOR DEPENDENT frame, and back through avc.Frame.from_bytes + one PduAssembler that was '
+    'fed 0..2 earlier PDUs; (e) AdvertisingData through its other two parse entry points: get()/get_all() simple objects per '
+    'typed class, and data_types_from_advertising_data() over whole payloads (typed and generic structures mixed) rebuilt into '
+    'an AdvertisingData; GenericAdvertisingData equality; (f) SDP DataElement equality between the parsed and the constructed '
+    'element; (g) AVDTP messages the specification defines without a registered class (Discovery Reject) through Message.create.'
 )
 ASSUMPTIONS = [
     'well-formed = built by the harness reference encoder from in-range field values: length fields equal '
@@ -77,6 +91,15 @@ ASSUMPTIONS = [
     'AdvertisingData: significant part only (no zero-length early-termination padding)',
     'A2DP AAC codec information per A2DP 1.3 (octet 2 bits 0-1 reserved)',
     'values are sampled (boundary-biased); only the class registries are enumerated exhaustively',
+    'AdvertisingData.get()/get_all() may hand out the raw data of a structure (accepted as such for every type); when it '
+    'interprets the data (names, integers, tuples, UUIDs, Appearance) the result has to be the generated value, i.e. what the '
+    'typed class of the same type parses to (TX power is signed, Flags is an integer of any number of octets: CSS Part A 1.5, 1.3)',
+    'a payload whose filler ends in a manufacturer structure shorter than a company identifier is not judged through the typed-object view',
+    'L2CAP_PDU.from_bytes may leave a frame check sequence inside the payload (the channel checks it); both readings are accepted, '
+    'the bytes must come back either way',
+    'AVRCP framing is judged below avrcp.Protocol (the AV/C frame handed to AVCTP) and above avc.Frame / PduAssembler; single '
+    'packets only (fragmentation belongs to C19); the transaction label of a command is chosen by the protocol and not compared',
+    'ATT record views are only demanded for classes that still declare the derived attribute',
 ]
 SHRINK_KEYS = ('ops',)
 
@@ -540,7 +563,8 @@ def _handle_list_dec(data, offset):
 
 
 def _len16_bytes_gen(draw, prefix, room):
-    n = draw(st.sampled_from(sizes(max(0, room - 2), 0, 1, 40)))
+    pts = (255, 256, 600) if room - 2 >= 600 else (0, 1, 40)  # >= 255 only fit the large-budget family
+    n = draw(st.sampled_from(sizes(max(0, room - 2), *pts)))
     v = draw(st.binary(min_size=n, max_size=n))
     return v, n.to_bytes(2, 'big') + v, v
 
@@ -598,6 +622,12 @@ def _u64be_dec(data, offset):
 
 def _string_ov(length_size):
     def gen(draw, prefix, room):
+        top = min(300, 256 ** length_size - 1)
+        if room - length_size >= top and draw(st.integers(0, 2)) == 0:
+            # (large budgets only) a string whose length needs the high octet of a two-octet length / fills a one-octet one
+            n = draw(st.sampled_from(sorted({255, min(256, top), top})))
+            s = draw(st.text(alphabet=st.characters(min_codepoint=0x20, max_codepoint=0x7E), min_size=n, max_size=n))
+            return s, n.to_bytes(length_size, 'big') + s.encode('utf-8'), s
         cap = max(0, min(24, room - length_size))
         s = draw(st.text(max_size=cap).filter(_utf8_ok))
         b = s.encode('utf-8')
@@ -1069,9 +1099,14 @@ class Reg:
     budget = 64
     shared_parser = False  # parse-side caching lives in one shared function: bucket by registry, not by class
     base = object  # the class below which a codec override means "field list is not the whole story"
+    big_budget = 0  # > 0: a second, small family per class with this body budget (16-bit lengths >= 256, long values)
 
     def classes(self):  # -> list[(key, cls)]
         raise NotImplementedError
+
+    def len16(self, pdu):
+        """The frame's own 16-bit length field, None when the framing has none."""
+        return None
 
     def hdr(self):
         return st.just({})
@@ -1104,6 +1139,10 @@ class Reg:
 class L2capReg(Reg):
     name = 'l2cap'
     base = l2cap.L2CAP_Control_Frame
+    big_budget = 700
+
+    def len16(self, pdu):
+        return int.from_bytes(pdu[2:4], 'little')
 
     def classes(self):
         return sorted(l2cap.L2CAP_Control_Frame.classes.items(), key=lambda kv: int(kv[0]))
@@ -1130,6 +1169,7 @@ class L2capReg(Reg):
 class AttReg(Reg):
     name = 'att'
     base = att.ATT_PDU
+    big_budget = 516  # ATT_MTU 517 (Core Vol 3 Part F 3.2.9: values up to 512 octets)
 
     def classes(self):
         return sorted(att.ATT_PDU.pdu_classes.items(), key=lambda kv: int(kv[0]))
@@ -1147,6 +1187,7 @@ class AttReg(Reg):
 class SmpReg(AttReg):
     name = 'smp'
     base = smp.SMP_Command
+    big_budget = 0
 
     def classes(self):
         return sorted(smp.SMP_Command.smp_classes.items(), key=lambda kv: int(kv[0]))
@@ -1159,6 +1200,10 @@ class SdpReg(Reg):
     name = 'sdp'
     budget = 200
     base = sdp.SDP_PDU
+    big_budget = 700
+
+    def len16(self, pdu):
+        return int.from_bytes(pdu[3:5], 'big')
 
     def classes(self):
         return sorted(sdp.SDP_PDU.subclasses.items(), key=lambda kv: int(kv[0]))
@@ -1234,6 +1279,7 @@ class AvdtpReg(Reg):
 class AvrcpCmdReg(Reg):
     name = 'avrcp_cmd'
     base = avrcp.Command
+    big_budget = 700
 
     def classes(self):
         return sorted(avrcp.Command.subclasses.items(), key=lambda kv: int(kv[0]))
@@ -1279,6 +1325,10 @@ class AvrcpItemReg(Reg):
     name = 'avrcp_item'
     base = avrcp.BrowseableItem
     shared_parser = True
+    big_budget = 700
+
+    def len16(self, pdu):
+        return int.from_bytes(pdu[1:3], 'big')
     PRE, POST = b'\xa5\x5a', b'\x01\x00\x00'
 
     def classes(self):
@@ -1346,9 +1396,44 @@ def layout_deviation(ctx, site: str) -> None:
         ctx.notes.append(line)
 
 
+# Structured views that a class derives from its raw record field (ATT 3.4.3.2, 3.4.3.4, 3.4.4.2, 3.4.4.10): what the
+# GATT client reads.  name -> (attribute, reference decoder of the expected field values)
+def _records(data: bytes, size: int, split):
+    return tuple(split(bytes(data[o : o + size])) for o in range(0, len(data) - size + 1, size)) if size > 0 else ()
+
+
+def _le16(b: bytes) -> int:
+    return int.from_bytes(b, 'little')
+
+
+DERIVED_VIEWS = {
+    'ATT_Find_Information_Response': (
+        'information', lambda e: _records(e['information_data'], 4 if e['format'] == 1 else 18, lambda r: (_le16(r[:2]), r[2:]))),
+    'ATT_Find_By_Type_Value_Response': (
+        'handles_information', lambda e: _records(e['handles_information_list'], 4, lambda r: (_le16(r[:2]), _le16(r[2:4])))),
+    'ATT_Read_By_Type_Response': (
+        'attributes', lambda e: _records(e['attribute_data_list'], e['length'], lambda r: (_le16(r[:2]), r[2:]))),
+    'ATT_Read_By_Group_Type_Response': (
+        'attributes', lambda e: _records(e['attribute_data_list'], e['length'], lambda r: (_le16(r[:2]), _le16(r[2:4]), r[4:]))),
+}
+
+
+def derived_view(reg: Reg, cls, expected: dict):
+    """(attribute name, expected records) for the classes above, None for every other class."""
+    if reg.name != 'att' or cls.__name__ not in DERIVED_VIEWS:
+        return None
+    attr, ref = DERIVED_VIEWS[cls.__name__]
+    if not hasattr(cls, '__dataclass_fields__') or attr not in cls.__dataclass_fields__:
+        return None  # the class no longer offers this view: nothing is promised
+    return attr, ref(expected)
+
+
 def check_unit(ctx, reg: Reg, key, cls, pdu: bytes, values: dict, expected: dict, hdr: dict, case, names=None) -> bool:
     restore_registries()
     site = f'{reg.name}/{cls.__name__}'
+    view = derived_view(reg, cls, expected)
+    if view is not None:
+        ctx.label('att_view', f'att_view:records:{min(len(view[1]), 2)}')
     broken = _first_broken(values)
     if broken:
         ctx.fail(f'construct_raises/{reg.name}/{broken[0]}/{type(broken[1]).__name__}', f'building field {broken[0]} of {cls.__name__} from in-range values raised {broken[1]!r}', case)
@@ -1362,6 +1447,15 @@ def check_unit(ctx, reg: Reg, key, cls, pdu: bytes, values: dict, expected: dict
     except Exception as e:
         ctx.fail(f'encode_raises/{site}/{type(e).__name__}', f'building {cls.__name__} from in-range field values raised {e!r}', case)
         return False
+    if view is not None:  # the constructed value offers the same structured view as the parsed one
+        try:
+            made_view = _freeze(getattr(want_obj, view[0]))
+        except Exception as e:
+            ctx.fail(f'decode_view_raises/{site}/{type(e).__name__}', f'reading {cls.__name__}.{view[0]} of a constructed object raised {e!r}', case)
+            return False
+        if made_view != view[1]:
+            ctx.fail(f'decode_view/{site}', f'{cls.__name__}.{view[0]} of an object constructed from the field values is {made_view!r:.160}, expected {view[1]!r:.160}', case)
+            return False
 
     def clauses(data: bytes, own: bool, compare: bool) -> bool:
         """bytes -> fields (compared when `compare`), then parsed / rebuilt objects re-serialise to `data`.
@@ -1399,6 +1493,13 @@ def check_unit(ctx, reg: Reg, key, cls, pdu: bytes, values: dict, expected: dict
                     return fail(f'eq_raises/{site}/{type(e).__name__}', repr(e))
                 if not equal:
                     return fail(f'eq/{site}', f'{cls.__name__} parsed from its own serialisation does not compare equal to the original')
+            if view is not None:
+                try:
+                    got_view = _freeze(getattr(parsed, view[0]))
+                except Exception as e:
+                    return fail(f'decode_view_raises/{site}/{type(e).__name__}', f'reading {cls.__name__}.{view[0]} raised {e!r}')
+                if got_view != view[1]:
+                    return fail(f'decode_view/{site}', f'{cls.__name__}.{view[0]} parsed from {what} is {got_view!r:.160}, the records on the wire are {view[1]!r:.160}')
         # parsed re-serialises to the same bytes (as-is, and rebuilt from its field values)
         try:
             again = reg.ser(parsed, got_hdr)
@@ -1422,6 +1523,9 @@ def check_unit(ctx, reg: Reg, key, cls, pdu: bytes, values: dict, expected: dict
         layout_deviation(ctx, site)
     # the spec-conformant bytes: must parse, (equal the values unless the layouts differ,) and re-serialise unchanged
     return clauses(pdu, own=False, compare=not deviates)
+
+
+_GROWING = {'spec:rest', 'spec:len16_bytes', 'spec:string1', 'spec:string2', 'spec:list_group', 'spec:u16list', 'spec:length_value_tuples'}
 
 
 def run_registry(ctx, reg: Reg, per_class: int, dedicated: dict) -> tuple[int, int]:
@@ -1450,8 +1554,24 @@ def run_registry(ctx, reg: Reg, per_class: int, dedicated: dict) -> tuple[int, i
             ctx.case((reg.name, cls.__name__, pdu), nontrivial(wire), {reg.name} | labels,
                      sample={'registry': reg.name, 'class': cls.__name__, 'pdu': pdu[:64].hex()})
 
+        def one_big(drawn, key=key, cls=cls, labels=labels):
+            hdr, (values, wire, expected) = drawn
+            pdu = reg.frame(key, hdr, wire)
+            case = {'kind': 'pdu', 'reg': reg.name, 'key': reg.key_str(key), 'pdu': pdu}
+            check_unit(ctx, reg, key, cls, pdu, values, expected, hdr, case)
+            extra = {'big_body'}
+            if len(wire) >= 256:
+                extra.add(f'body>=256:{reg.name}')
+                if reg.len16(pdu) is not None:
+                    extra.add(f'len16>=256:{reg.name}')
+            ctx.case((reg.name, cls.__name__, pdu), nontrivial(wire), {reg.name} | labels | extra,
+                     sample={'registry': reg.name, 'class': cls.__name__, 'pdu': pdu[:32].hex(), 'len': len(pdu)})
+
         try:
             ctx.hyp(f'{reg.name}/{cls.__name__}', one, st.tuples(reg.hdr(), gen_fields(reg.name, fields, reg.budget)), max_examples=per_class)
+            if reg.big_budget and labels & _GROWING:  # classes with a field that can use the room
+                ctx.hyp(f'{reg.name}/{cls.__name__}/big', one_big, st.tuples(reg.hdr(), gen_fields(reg.name, fields, reg.big_budget)),
+                        max_examples=max(6, per_class // 6))
         except specgen.UnknownSpec as e:
             raise HarnessError(f'{cls.__name__}: {e}')
         covered += 1
@@ -1850,6 +1970,124 @@ def run_psm(ctx, n) -> None:
 
 
 # ---------------------------------------------------------------------------
+# L2CAP basic frame header (Core Vol 3 Part A 3.1 / 3.3: length, channel ID, payload[, FCS]) and the configuration
+# options carried by Configure Request / Response (Part A 5: type, length, value; bit 7 of the type = hint)
+# ---------------------------------------------------------------------------
+def ref_crc16(data: bytes) -> int:
+    """Part A 3.3.5: g(D) = D^16 + D^15 + D^2 + 1, LFSR preset 0, least significant bit first."""
+    crc = 0
+    for b in data:
+        crc ^= b
+        for _ in range(8):
+            crc = (crc >> 1) ^ 0xA001 if crc & 1 else crc >> 1
+    return crc
+
+
+if ref_crc16(bytes.fromhex('0E0040000200000102030405060708 09'.replace(' ', ''))) != 0x6138:  # the specification's own example
+    raise HarnessError('reference CRC-16 does not reproduce the example of Core Vol 3 Part A 3.3.5')
+
+
+def check_l2cap_pdu(ctx, p) -> None:
+    cid, payload = int(p['cid']), bytes(p['payload'])
+    case = {'kind': 'l2cap_pdu', 'cid': cid, 'payload': payload}
+    P = l2cap.L2CAP_PDU
+    plain = len(payload).to_bytes(2, 'little') + cid.to_bytes(2, 'little') + payload
+    roundtrip(
+        ctx, 'L2CAP_PDU', case, plain,
+        build=lambda: P(cid, payload),
+        parse=P.from_bytes,
+        fields=lambda o: (int(o.cid), bytes(o.payload)),
+        want=(cid, payload),
+        rebuild=lambda o: P(o.cid, o.payload),
+    )
+    if len(payload) > 65533:
+        return
+    # with a frame check sequence: the length field counts it, the FCS covers header + payload
+    head = (len(payload) + 2).to_bytes(2, 'little') + cid.to_bytes(2, 'little') + payload
+    with_fcs = head + ref_crc16(head).to_bytes(2, 'little')
+    try:
+        built = P(cid, payload).to_bytes(with_fcs=True)
+        parsed = P.from_bytes(with_fcs)
+        again = bytes(parsed)
+        got = (int(parsed.cid), bytes(parsed.payload))
+    except Exception as e:
+        ctx.fail(f'raises/L2CAP_PDU/fcs/{type(e).__name__}', repr(e), case)
+        return
+    if built != with_fcs:
+        ctx.fail('encode/L2CAP_PDU/fcs', f'frame with FCS serialises to {built[:24].hex()}..{built[-4:].hex()}, reference {with_fcs[:24].hex()}..{with_fcs[-4:].hex()}', case)
+    elif got not in ((cid, payload), (cid, with_fcs[4:])):  # the FCS may be left in the payload for the channel to check
+        ctx.fail('decode_fields/L2CAP_PDU/fcs', f'{with_fcs[:24].hex()}.. parsed as cid {got[0]} payload {got[1][:24].hex()}.. ({len(got[1])} bytes)', case)
+    elif again != with_fcs and again != plain:
+        ctx.fail('reencode_parsed/L2CAP_PDU/fcs', f'{with_fcs[:24].hex()}.. re-serialises to {again[:24].hex()}.. ({len(again)} bytes)', case)
+
+
+def check_l2cap_options(ctx, p) -> None:
+    options = [(int(t), bytes(v)) for t, v in p['options']]
+    case = {'kind': 'l2cap_options', 'options': [[t, v] for t, v in options]}
+    wire = b''.join(bytes([t, len(v)]) + v for t, v in options)
+    F = l2cap.L2CAP_Control_Frame
+    site = 'l2cap_options'
+    try:
+        built = F.encode_configuration_options(options)
+    except Exception as e:
+        ctx.fail(f'encode_raises/{site}/{type(e).__name__}', repr(e), case)
+        return
+    two_sided(ctx, site, wire, built, make_clauses(
+        ctx, site, case, wire, F.decode_configuration_options, lambda opts: [(int(t), bytes(v)) for t, v in opts], options,
+        lambda opts: [(int(t), bytes(v)) for t, v in opts], ser=F.encode_configuration_options))
+    # and inside the signalling frame that carries them
+    for cls_name, kw in (('L2CAP_Configure_Request', {'destination_cid': 0x0041, 'flags': 0}),
+                         ('L2CAP_Configure_Response', {'source_cid': 0x0040, 'flags': 0, 'result': 0})):
+        cls = getattr(l2cap, cls_name, None)
+        if cls is None or set(specgen.flat_names(cls.fields)) != set(kw) | {'options'}:
+            continue
+        try:
+            frame = bytes(cls(identifier=7, options=built, **kw))
+            back = F.decode_configuration_options(F.from_bytes(frame).options)
+        except Exception as e:
+            ctx.fail(f'raises/{site}/{cls_name}/{type(e).__name__}', repr(e), case)
+            return
+        if [(int(t), bytes(v)) for t, v in back] != options:
+            ctx.fail(f'decode_fields/{site}/{cls_name}', f'options {wire[:32].hex()} inside {cls_name} read back as {back!r:.160}', case)
+            return
+
+
+L2CAP_OPTION_SIZES = {1: 2, 2: 2, 3: 22, 4: 9, 5: 1, 6: 16, 7: 2}  # Part A 5.1 - 5.7
+
+
+def run_l2cap_basic(ctx, n) -> None:
+    def one_pdu(d):
+        cid, payload = d
+        check_l2cap_pdu(ctx, {'cid': cid, 'payload': payload})
+        k = len(payload)
+        ctx.case(('l2pdu', cid, payload), True, {'l2cap_pdu', f"l2cap_pdu_len:{k if k in (0, 1, 255, 256, 65533, 65535) else 'other'}"},
+                 sample={'cid': cid, 'len': k, 'payload': payload[:16].hex()})
+
+    cids = st.one_of(st.sampled_from([0x0001, 0x0004, 0x0005, 0x0040, 0xFFFF]), specgen.uint(2))
+    ctx.hyp('l2cap_pdu', one_pdu, st.tuples(cids, st.one_of(st.binary(max_size=48), st.sampled_from([255, 256, 257]).flatmap(lambda k: st.binary(min_size=k, max_size=k)))),
+            max_examples=n)
+    for k in (0, 1, 254, 255, 256, 65533, 65534, 65535):  # every shard: the family is tiny and its labels have floors
+        one_pdu((0x0040 + (k & 7), bytes((j * 5 + k) & 0xFF for j in range(k))))
+
+    option = st.one_of(
+        st.tuples(st.sampled_from(sorted(L2CAP_OPTION_SIZES)), st.booleans()).flatmap(
+            lambda t: st.binary(min_size=L2CAP_OPTION_SIZES[t[0]], max_size=L2CAP_OPTION_SIZES[t[0]]).map(lambda v: [t[0] | (0x80 if t[1] else 0), v])),
+        st.tuples(st.sampled_from([0x08, 0x7F, 0x88, 0xFF]), st.one_of(st.binary(max_size=6), st.binary(min_size=255, max_size=255))).map(list),
+    )
+
+    def one_opts(options):
+        check_l2cap_options(ctx, {'options': options})
+        labels = {'l2cap_options', f'l2cap_options:{min(len(options), 3)}'}
+        if any(t & 0x80 for t, _ in options):
+            labels.add('l2cap_options:hint')
+        if any(len(v) == 0 for _, v in options):
+            labels.add('l2cap_options:empty_value')
+        ctx.case(('l2opt', options), bool(options), labels, sample={'options': [[t, v[:8].hex()] for t, v in options]})
+
+    ctx.hyp('l2cap_options', one_opts, st.lists(option, max_size=5), max_examples=n)
+
+
+# ---------------------------------------------------------------------------
 # SDP data elements
 # ---------------------------------------------------------------------------
 def _tree_flags(tree, acc):
@@ -1872,10 +2110,11 @@ def check_element(ctx, p) -> None:
     flags = _tree_flags(tree, set())
     site = 'DataElement' + ('/int128' if 'int128' in flags else '')
     want = de_norm(tree)
-    built = wire
+    built, built_obj = wire, None
     if 'forced' not in flags:
         try:
-            built = bytes(de_build(tree))
+            built_obj = de_build(tree)
+            built = bytes(built_obj)
         except Exception as e:
             ctx.fail(f'encode_raises/{site}/{type(e).__name__}', f'building {describe_tree(tree)} raised {e!r}', case)
             return
@@ -1902,6 +2141,13 @@ def check_element(ctx, p) -> None:
                 return fail(f'decode_fields/{site}', f'{describe_tree(tree)} ({what}) parsed as {describe_tree(got)}')
             if _freeze(got) != _freeze(plain):
                 return fail('uuid_width/DataElement', f'UUID inside {describe_tree(tree)} parsed with another width: {describe_tree(got)}')
+            if built_obj is not None and own_eq(sdp.DataElement):
+                try:
+                    same = bool(parsed == built_obj) and bool(built_obj == parsed)
+                except Exception as e:
+                    return fail(f'eq_raises/{site}/{type(e).__name__}', f'comparing a parsed {describe_tree(tree)} with the constructed one raised {e!r}')
+                if not same:
+                    return fail(f'eq/{site}', f'{describe_tree(tree)} parsed from {what} does not compare equal to the element it was serialised from')
         try:
             again = bytes(parsed)
             rebuilt = bytes(fresh(parsed))
@@ -2247,6 +2493,65 @@ def run_caps(ctx, n) -> None:
 
 
 # ---------------------------------------------------------------------------
+# AVDTP signalling messages the specification defines but for which no class is registered: Message.create() falls back
+# to Simple_Reject (any RESPONSE_REJECT) or a bare Message.  Specification-defined and not registered today:
+# Stream End Point Discovery Reject (AVDTP 1.3 sec. 8.6.3: one octet, the error code).
+# p = {'signal', 'type', 'label', 'body'}
+# ---------------------------------------------------------------------------
+AVDTP_SPEC_DEFINED_REJECTS = {0x01: 'Discover_Reject'}  # signal identifier -> name; body = error code (1 octet)
+
+
+def check_avdtp_unregistered(ctx, p) -> None:
+    restore_registries()
+    sig, mt, label, body = int(p['signal']), int(p['type']), int(p['label']), bytes(p['body'])
+    case = {'kind': 'avdtp_unregistered', 'signal': sig, 'type': mt, 'label': label, 'body': body}
+    reg = REGS['avdtp']
+    site = f"avdtp/unregistered/{AVDTP_SPEC_DEFINED_REJECTS.get(sig, f'signal{sig}')}"
+    wire = bytes([label << 4 | mt, sig]) + body
+    try:
+        msg = reg.parse(wire, None)
+    except Exception as e:
+        ctx.fail(f'decode_raises/{site}/{type(e).__name__}', f'parsing the well-formed {wire.hex()} raised {e!r}', case)
+        return
+    got = (int(msg.signal_identifier), int(msg.message_type), getattr(msg, '_c18_label', None))
+    if got != (sig, mt, label):
+        ctx.fail(f'decode_header/{site}', f'{wire.hex()} parsed with (signal, type, label) = {got}', case)
+        return
+    if mt == 3 and int(getattr(msg, 'error_code', -1)) != body[0]:
+        ctx.fail(f'decode_fields/{site}', f'{wire.hex()} parsed with error code {getattr(msg, "error_code", None)!r}', case)
+        return
+    try:
+        again = reg.ser(msg, {'label': label})
+        fields = {n: fresh(getattr(msg, n)) for n in specgen.flat_names(type(msg).fields)} if mt == 3 else {}
+        if mt == 3 and not fields:
+            fields = {'error_code': msg.error_code}  # what the fallback class is constructed from
+        rebuilt_obj = type(msg)(**fields)
+        rebuilt_obj.signal_identifier, rebuilt_obj.message_type = msg.signal_identifier, msg.message_type
+        if mt != 3:
+            rebuilt_obj.payload = msg.payload
+        rebuilt = reg.ser(rebuilt_obj, {'label': label})
+    except Exception as e:
+        ctx.fail(f'reencode_raises/{site}/{type(e).__name__}', f're-serialising what {wire.hex()} parsed to raised {e!r}', case)
+        return
+    if again != wire:
+        ctx.fail(f'reencode_parsed/{site}', f'{type(msg).__name__} parsed from {wire.hex()} serialises to {again.hex()}', case)
+    elif rebuilt != wire:
+        ctx.fail(f'reencode/{site}', f'{type(msg).__name__} parsed from {wire.hex()} and rebuilt from its fields serialises to {rebuilt.hex()}', case)
+
+
+def run_avdtp_unregistered(ctx) -> None:
+    registered = {key for key, _cls in REGS['avdtp'].classes()}
+    errors = sorted({int(x) for x in avdtp.ErrorCode} | {0x01, 0xC0, 0xFF})
+    i = 0
+    for sig, name in sorted(AVDTP_SPEC_DEFINED_REJECTS.items()):
+        for err in errors:  # every shard: a tiny family whose label has a floor
+            i += 1
+            check_avdtp_unregistered(ctx, {'signal': sig, 'type': 3, 'label': i & 15, 'body': bytes([err])})
+            ctx.case(('avdtp_unreg', sig, err), True, {'avdtp_spec_defined_reject', 'avdtp_spec_defined_reject:' + ('registered' if (sig, 3) in registered else 'fallback')},
+                     sample={'unit': name, 'wire': bytes([(i & 15) << 4 | 3, sig, err]).hex()})
+
+
+# ---------------------------------------------------------------------------
 # AVCTP single-packet header (AVCTP 1.4 6.1.1)
 # ---------------------------------------------------------------------------
 def check_avctp(ctx, p) -> None:
@@ -2289,6 +2594,187 @@ def run_avctp(ctx, n) -> None:
                  sample={k: (v.hex() if isinstance(v, bytes) else v) for k, v in p.items()})
 
     ctx.hyp('avctp', one, strat, max_examples=n)
+
+
+# ---------------------------------------------------------------------------
+# AVRCP specific AV/C commands (AVRCP 1.6 sec. 6.3.1, Figure 6.1): an AV/C VENDOR DEPENDENT frame addressed to the PANEL
+# subunit 0 with the Bluetooth SIG company identifier, carrying  PDU ID | reserved(6) packet type(2) | parameter
+# length (16 bits, big-endian) | parameters.   Bumble: Protocol.send_avrcp_command / send_avrcp_response (and the
+# rejected / not-implemented forms) build it, avc.Frame.from_bytes + PduAssembler.on_pdu take it apart.
+# p = {'dir': 'cmd'|'rsp', 'code': ctype / response code, 'pdu_id', 'params', 'label', 'prior': [[pdu_id, params], ..],
+#      'how': 'typed' (params are the serialisation of the registered class of pdu_id) | 'opaque' | 'rejected'}
+# ---------------------------------------------------------------------------
+AVRCP_COMPANY_ID, AVRCP_PROFILE_ID, AVC_PANEL = 0x001958, 0x110E, 0x09
+
+
+def avrcp_pdu_reference(pdu_id: int, params: bytes) -> bytes:
+    return bytes([pdu_id, 0]) + len(params).to_bytes(2, 'big') + bytes(params)
+
+
+def avrcp_frame_reference(p) -> bytes:
+    return bytes([p['code'], AVC_PANEL << 3 | 0, 0x00]) + AVRCP_COMPANY_ID.to_bytes(3, 'big') + avrcp_pdu_reference(p['pdu_id'], p['params'])
+
+
+class _AvctpCapture:
+    """Stands for avctp.Protocol below avrcp.Protocol: records what would be sent."""
+
+    def __init__(self):
+        self.sent = []
+
+    def send_command(self, transaction_label, pid, payload):
+        self.sent.append(('cmd', transaction_label, pid, bytes(payload)))
+
+    def send_response(self, transaction_label, pid, payload):
+        self.sent.append(('rsp', transaction_label, pid, bytes(payload)))
+
+
+def _avrcp_emit(p, obj):
+    """What avrcp.Protocol hands to AVCTP for this unit: list of (direction, label, pid, AV/C frame bytes)."""
+    import asyncio
+
+    from vlib import vloop
+
+    async def go(_loop):
+        proto = avrcp.Protocol()
+        cap = _AvctpCapture()
+        proto.avctp_protocol = cap
+        if p['dir'] == 'cmd':
+            task = asyncio.ensure_future(proto.send_avrcp_command(avc.CommandFrame.CommandType(p['code']), obj))
+            for _ in range(3):
+                await asyncio.sleep(0)
+            task.cancel()
+        elif p['how'] == 'rejected':
+            proto.send_rejected_avrcp_response(p['label'], avrcp.PduId(p['pdu_id']), avrcp.StatusCode(p['params'][0]))
+        else:
+            proto.send_avrcp_response(p['label'], avc.ResponseFrame.ResponseCode(p['code']), obj)
+        return cap.sent
+
+    sent, errors = vloop.run_case(go)
+    if errors:
+        raise RuntimeError(f'loop errors: {errors!r:.200}')
+    return sent
+
+
+def check_avrcp_pdu(ctx, p) -> None:
+    restore_registries()
+    p = {k: v for k, v in p.items() if k != 'kind'}
+    params = bytes(p['params'])
+    prior = [(int(i), bytes(b)) for i, b in p.get('prior', [])]
+    p = dict(p, params=params, prior=[[i, b] for i, b in prior])
+    case = dict(p, kind='avrcp_pdu')
+    site = f"avrcp_pdu/{p['dir']}"
+    frame = avrcp_frame_reference(p)
+    pdu = avrcp_pdu_reference(p['pdu_id'], params)
+    # parse side: AV/C frame -> vendor dependent data -> PDU assembler (one instance, fed the earlier PDUs first)
+    try:
+        f = avc.Frame.from_bytes(frame)
+        want_cls = avc.VendorDependentCommandFrame if p['dir'] == 'cmd' else avc.VendorDependentResponseFrame
+        code = int(f.ctype) if p['dir'] == 'cmd' else int(f.response)
+        if type(f) is not want_cls or (code, int(f.subunit_type), int(f.subunit_id), int(f.company_id)) != (p['code'], AVC_PANEL, 0, AVRCP_COMPANY_ID):
+            ctx.fail(f'decode_fields/{site}/frame', f'{frame[:24].hex()} parsed as {f}'[:300], case)
+            return
+        got = []
+        asm = avrcp.PduAssembler(lambda pdu_id, parameters: got.append((int(pdu_id), bytes(parameters))))
+        for i, b in prior:
+            asm.on_pdu(avrcp_pdu_reference(i, b))
+        asm.on_pdu(bytes(f.vendor_dependent_data))
+    except Exception as e:
+        ctx.fail(f'decode_raises/{site}/{type(e).__name__}', f'taking {frame[:24].hex()}.. ({len(frame)} bytes) apart raised {e!r}', case)
+        return
+    if bytes(f.vendor_dependent_data) != pdu:
+        ctx.fail(f'decode_fields/{site}/frame', f'vendor dependent data of {frame[:24].hex()}.. is {bytes(f.vendor_dependent_data)[:24].hex()}..', case)
+        return
+    if got != prior + [(p['pdu_id'], params)]:
+        ctx.fail(f'decode_fields/{site}/pdu', f'PDU {pdu[:16].hex()}.. ({len(params)} parameter bytes) after {len(prior)} earlier PDU(s): the assembler delivered '
+                                             f'{[(i, len(b), b[:8].hex()) for i, b in got]!r:.200}', case)
+        return
+    # the unit itself
+    how = p['how']
+    try:
+        if how == 'typed':
+            obj = avrcp.Command.from_bytes(p['pdu_id'], params) if p['dir'] == 'cmd' else avrcp.Response.from_bytes(params, avrcp.PduId(p['pdu_id']))
+        elif how == 'rejected':
+            obj = avrcp.RejectedResponse.from_bytes(params, avrcp.PduId(p['pdu_id']))
+            if (int(obj.pdu_id), int(obj.status_code)) != (p['pdu_id'], params[0]):
+                ctx.fail('decode_fields/avrcp_pdu/RejectedResponse', f'{params.hex()} parsed as {obj}', case)
+                return
+            obj = avrcp.RejectedResponse(avrcp.PduId(p['pdu_id']), avrcp.StatusCode(params[0]))
+        else:
+            obj = avrcp.NotImplementedResponse.from_bytes(params, avrcp.PduId(p['pdu_id']))
+            if (int(obj.pdu_id), bytes(obj.parameters)) != (p['pdu_id'], params):
+                ctx.fail('decode_fields/avrcp_pdu/NotImplementedResponse', f'{params[:24].hex()} parsed as {obj}'[:300], case)
+                return
+            obj = avrcp.NotImplementedResponse(avrcp.PduId(p['pdu_id']), params)
+        if bytes(obj) != params:
+            ctx.fail(f'reencode/avrcp_pdu/{type(obj).__name__ if how != "typed" else "typed"}', f'{type(obj).__name__} for parameters {params[:24].hex()} serialises to {bytes(obj)[:24].hex()}', case)
+            return
+    except Exception as e:
+        ctx.fail(f'decode_raises/{site}/{how}/{type(e).__name__}', f'parameters {params[:24].hex()} of PDU 0x{p["pdu_id"]:02x}: {e!r}', case)
+        return
+    # build side: what avrcp.Protocol emits for the unit is the reference frame, for AVRCP's profile identifier
+    try:
+        sent = _avrcp_emit(p, obj)
+    except Exception as e:
+        ctx.fail(f'encode_raises/{site}/{type(e).__name__}', f'sending {type(obj).__name__} raised {e!r}', case)
+        return
+    if len(sent) != 1 or sent[0][0] != p['dir'] or sent[0][2] != AVRCP_PROFILE_ID or (p['dir'] == 'rsp' and sent[0][1] != p['label']):
+        ctx.fail(f'encode/{site}/envelope', f'{type(obj).__name__} sent as {[(d, l, hex(pid), len(b)) for d, l, pid, b in sent]!r:.200}', case)
+        return
+    if sent[0][3] != frame:
+        ctx.fail(f'encode/{site}', f'{type(obj).__name__} with {len(params)} parameter bytes is sent as {sent[0][3][:24].hex()}.., reference {frame[:24].hex()}..', case)
+
+
+AVRCP_PARAM_LENGTHS = (0, 1, 255, 256, 257, 512, 65535)
+
+
+def _avrcp_plain_classes(reg: Reg):
+    return [(key, cls) for key, cls in reg.classes() if not has_custom_codec(reg, cls)]
+
+
+def run_avrcp_pdu(ctx, n) -> None:
+    cmd_codes = [0x00, 0x01, 0x03]  # CONTROL, STATUS, NOTIFY
+    rsp_codes = [0x09, 0x0C, 0x0D, 0x0F]  # ACCEPTED, IMPLEMENTED/STABLE, CHANGED, INTERIM
+    pdu_ids = sorted({int(k) for k in avrcp.Command.subclasses} | {int(k) for k in avrcp.Response.subclasses})
+    prior = st.lists(st.tuples(st.sampled_from(pdu_ids), st.binary(max_size=6)).map(list), max_size=2)
+
+    def one(p):
+        check_avrcp_pdu(ctx, p)
+        k = len(p['params'])
+        labels = {'avrcp_pdu', f"avrcp_pdu:{p['dir']}", f"avrcp_pdu:{p['how']}", f"avrcp_pdu_len:{k if k in AVRCP_PARAM_LENGTHS else 'other'}",
+                  f"avrcp_pdu_prior:{min(len(p['prior']), 2)}"}
+        if k >= 256:
+            labels.add('avrcp_pdu_len>=256')
+        ctx.case(('avrcp_pdu', p['dir'], p['code'], p['pdu_id'], p['params'], p['prior']), True, labels,
+                 sample={'dir': p['dir'], 'how': p['how'], 'pdu_id': p['pdu_id'], 'len': k, 'frame': avrcp_frame_reference(p)[:24].hex()})
+
+    # registered command / response classes, serialised by the class, framed by the protocol
+    for d, reg, codes in (('cmd', REGS['avrcp_cmd'], cmd_codes), ('rsp', REGS['avrcp_rsp'], rsp_codes)):
+        classes = _avrcp_plain_classes(reg)
+
+        @st.composite
+        def typed(draw, d=d, reg=reg, codes=codes, classes=classes):
+            key, cls = draw(st.sampled_from(classes))
+            values, _wire, _expected = draw(gen_fields(reg.name, cls.fields, draw(st.sampled_from([64, 64, 700]))))
+            obj = _mk(cls, values)
+            params = None if isinstance(obj, Broken) else _safe(bytes, obj)
+            if not isinstance(params, bytes):
+                return None  # the class cannot serialise these values: judged by the registry family, not here
+            return {'dir': d, 'code': draw(st.sampled_from(codes)), 'pdu_id': int(key), 'params': params, 'label': draw(st.integers(0, 15)),
+                    'prior': draw(prior), 'how': 'typed'}
+
+        ctx.hyp(f'avrcp_pdu/{d}', lambda p: one(p) if p is not None else None, typed(), max_examples=n)
+    # the header on its own: parameter lengths around the octet boundaries of the 16-bit length, opaque parameters
+    opaque = st.fixed_dictionaries({
+        'dir': st.just('rsp'), 'code': st.just(0x08), 'pdu_id': st.sampled_from(pdu_ids), 'label': st.integers(0, 15), 'prior': prior, 'how': st.just('opaque'),
+        'params': st.one_of(st.binary(max_size=24), st.sampled_from([255, 256, 257, 512]).flatmap(lambda k: st.binary(min_size=k, max_size=k)))})
+    ctx.hyp('avrcp_pdu/opaque', one, opaque, max_examples=max(10, n // 2))
+    rejected = st.fixed_dictionaries({
+        'dir': st.just('rsp'), 'code': st.just(0x0A), 'pdu_id': st.sampled_from(pdu_ids), 'label': st.integers(0, 15), 'prior': prior, 'how': st.just('rejected'),
+        'params': st.sampled_from(sorted(int(x) for x in avrcp.StatusCode)).map(lambda v: bytes([v]))})
+    ctx.hyp('avrcp_pdu/rejected', one, rejected, max_examples=max(10, n // 4))
+    for k in AVRCP_PARAM_LENGTHS:  # every shard: a tiny family whose labels have floors
+        one({'dir': 'rsp', 'code': 0x08, 'pdu_id': pdu_ids[k % len(pdu_ids)], 'label': k & 15, 'prior': [[pdu_ids[0], b'\x01']] if k & 1 else [], 'how': 'opaque',
+             'params': bytes((j * 3 + k) & 0xFF for j in range(k))})
 
 
 # ---------------------------------------------------------------------------
@@ -2526,7 +3012,7 @@ def check_ad_typed(ctx, p) -> None:
     def view(pair):
         return [_plain(h.view(pair[0])), _plain(h.view(pair[1])), type(pair[1]).__name__]
 
-    two_sided(ctx, site, ref, built, make_clauses(
+    ok = two_sided(ctx, site, ref, built, make_clauses(
         ctx, site, case, ref, parse, view, [params, params, cls.__name__],
         rebuild=lambda pair: h.build(cls, _plain(h.view(pair[0]))), ser=lambda o: bytes(o[0] if isinstance(o, tuple) else o),
         eq_obj=None, cmp=lambda got, want: 'uuid_width/ad_type' if _widen(got) == _widen(want) else None))
@@ -2538,6 +3024,53 @@ def check_ad_typed(ctx, p) -> None:
             return
         if not same:
             ctx.fail(f'eq/{site}', f'{cls.__name__} parsed from its own serialisation is not equal to the original', case)
+            return
+    if ok and not multi:
+        check_ad_simple_view(ctx, t, cls, params, ref, case)
+
+
+def _simple(x):
+    """Plain rendering of what AdvertisingData.get() hands out (UUIDs, Appearance, tuples, strings, integers, bytes)."""
+    if isinstance(x, UUID):
+        return bytes(x)
+    if isinstance(x, core.Appearance):
+        return int(x)
+    if isinstance(x, (bytes, bytearray, memoryview)):
+        return bytes(x)
+    if isinstance(x, str):
+        return str.__str__(x)
+    if isinstance(x, int):
+        return int(x)
+    if isinstance(x, (list, tuple)):
+        return [_simple(i) for i in x]
+    return ('other', repr(x))
+
+
+def check_ad_simple_view(ctx, t, cls, params, ref: bytes, case) -> None:
+    """The other parse entry point for one structure: AdvertisingData.get() / get_all() ("simple objects").  For a type it
+    does not interpret it returns the raw data (accepted as such); what it does interpret (names, integers, tuples,
+    UUIDs) has to be the generated value - the same one the typed class of that type parses to."""
+    AD = core.AdvertisingData
+    try:
+        ad = AD.from_bytes(bytes([len(ref) + 1, int(t)]) + ref)
+        got = ad.get(int(t))
+        every = ad.get_all(int(t))
+        raw = ad.get(int(t), raw=True)
+    except Exception as e:
+        ctx.fail(f'object_view_raises/AdvertisingData.get/{cls.__name__}/{type(e).__name__}',
+                 f'AdvertisingData.get(0x{int(t):02x}) on the well-formed data {ref.hex()} of a {cls.__name__} raised {e!r}', case)
+        return
+    if raw != ref:
+        ctx.fail('decode_fields/AdvertisingData.get/raw', f'get(0x{int(t):02x}, raw=True) on {ref.hex()} gives {raw!r:.80}', case)
+        return
+    interpreted = not (isinstance(got, (bytes, bytearray)) and bytes(got) == ref)
+    ctx.label('ad_simple_view:' + ('interpreted' if interpreted else 'raw'))
+    if interpreted and _simple(got) != _plain(params):
+        ctx.fail(f'decode_fields/AdvertisingData.get/{cls.__name__}',
+                 f'{cls.__name__} {ref.hex()} (value {params!r:.80}) read through AdvertisingData.get() is {got!r:.80}', case)
+        return
+    if len(every) != 1 or _simple(every[0]) != _simple(got):
+        ctx.fail('decode_fields/AdvertisingData.get_all', f'get_all(0x{int(t):02x}) on one structure gives {every!r:.120}, get() gives {got!r:.80}', case)
 
 
 def run_ad_typed(ctx, n) -> tuple[int, int]:
@@ -2564,6 +3097,47 @@ def run_ad_typed(ctx, n) -> tuple[int, int]:
 # AdvertisingData as a whole (Core Vol 3 Part C 11: length, type, data; significant part only)
 # p = {'structs': [[type, data], ...]}
 # ---------------------------------------------------------------------------
+def check_ad_objects(ctx, site, case, wire: bytes, structs, parsed) -> bool:
+    """The whole payload through the typed-object API: one object per structure (the registered class of the type, the
+    generic class for every other type), and an AdvertisingData built from those objects is the same payload."""
+    AD = core.AdvertisingData
+    if any(t == 0xFF and len(d) < 2 for t, d in structs):
+        # the generator's filler may end in a manufacturer structure too short for a company identifier: not a
+        # well-formed ManufacturerSpecificData, so the typed view of this payload is not judged
+        ctx.label('ad_objects:not_judged_short_filler')
+        return True
+    classes = ad_typed_classes()
+    try:
+        objs = data_types.data_types_from_advertising_data(parsed)
+        again = bytes(AD(objs))
+        kinds = [(type(o), int(o.ad_type), bytes(o)) for o in objs]
+    except Exception as e:
+        ctx.fail(f'object_view_raises/{site}/data_types/{type(e).__name__}', f'data_types_from_advertising_data() on {wire[:40].hex()} raised {e!r}', case)
+        return False
+    ctx.label('ad_objects')
+    want_kinds = [(classes.get(AD.Type(t), data_types.GenericAdvertisingData), t, d) for t, d in structs]
+    if kinds != want_kinds:
+        bad = next((i for i, (a, b) in enumerate(zip(kinds, want_kinds)) if a != b), min(len(kinds), len(want_kinds)))
+        ctx.fail(f'decode_fields/{site}/data_types', f'structure {bad} of {wire[:40].hex()} becomes {kinds[bad:bad + 1]!r:.160}, expected {want_kinds[bad:bad + 1]!r:.160}', case)
+        return False
+    if again != wire:
+        ctx.fail(f'reencode/{site}/data_types', f'{wire[:40].hex()} rebuilt from its typed objects serialises to {again[:40].hex()}', case)
+        return False
+    G = data_types.GenericAdvertisingData
+    for (t, d), o in zip(structs, objs):
+        if isinstance(o, G):
+            ctx.label('ad_generic_object')
+            try:
+                same = bool(o == G(d, AD.Type(t))) and not bool(o == G(d, AD.Type(t ^ 1))) and not bool(o == G(d + b'\x00', AD.Type(t)))
+            except Exception as e:
+                ctx.fail(f'eq_raises/{site}/GenericAdvertisingData/{type(e).__name__}', repr(e), case)
+                return False
+            if not same:
+                ctx.fail(f'eq/{site}/GenericAdvertisingData', f'generic structure type 0x{t:02x} {d.hex()}: equality does not follow (type, data)', case)
+                return False
+    return True
+
+
 def check_ad(ctx, p) -> None:
     restore_registries()
     structs = [(int(t), bytes(d)) for t, d in p['structs']]
@@ -2602,6 +3176,7 @@ def check_ad(ctx, p) -> None:
         except Exception as e:
             ctx.fail(f'object_view_raises/{site}/{type(e).__name__}', f'get_all(0x{t:02x}) on {d.hex()} raised {e!r}', case)
             return
+    check_ad_objects(ctx, site, case, wire, structs, parsed)
 
 
 @st.composite
@@ -3020,11 +3595,14 @@ def run(ctx) -> None:
 
     run_ertm(ctx, ctx.n(150, 8000))
     run_psm(ctx, ctx.n(150, 8000))
+    run_l2cap_basic(ctx, ctx.n(80, 4000))
     run_elements(ctx, ctx.n(600, 24000))
     run_rfcomm(ctx, ctx.n(200, 16000))
     run_mcc(ctx, ctx.n(100, 8000))
     run_caps(ctx, ctx.n(150, 12000))
     run_avctp(ctx, ctx.n(100, 6000))
+    run_avrcp_pdu(ctx, ctx.n(60, 4000))
+    run_avdtp_unregistered(ctx)
     run_rtp(ctx, ctx.n(200, 12000))
     run_ad(ctx, ctx.n(150, 12000))
     run_address(ctx, ctx.n(150, 8000))
@@ -3048,6 +3626,13 @@ def run(ctx) -> None:
               'history_width_follow', 'avc:vendor', 'avc:passthrough', 'avc:passthrough_data', 'avc:generic', 'spec:psm', 'spec:data_element',
               'spec:capabilities', 'spec:uuid_rest', 'spec:list_group', 'spec:enum', 'spec:rest', 'spec:bytes']
     floors += [f'addr_type:{t}' for t in range(4)] + [f'sdp_type:{k}' for k in _DE_TYPES] + [f'sdp_idx:{i}' for i in range(8)]
+    # extension families
+    for label in ('len16>=256:l2cap', 'len16>=256:sdp', 'len16>=256:avrcp_item'):
+        ctx.floor(label, 2 if ctx.quick else 1)
+    floors += ['att_view', 'att_view:records:2', 'big_body', 'body>=256:att',
+               'l2cap_pdu', 'l2cap_options', 'l2cap_options:hint', 'l2cap_options:empty_value', 'avrcp_pdu:cmd', 'avrcp_pdu:rsp', 'avrcp_pdu:typed',
+               'avrcp_pdu:opaque', 'avrcp_pdu:rejected', 'avrcp_pdu_len>=256', 'avrcp_pdu_prior:1', 'avrcp_pdu_prior:2', 'ad_objects', 'ad_generic_object',
+               'ad_simple_view:interpreted', 'ad_simple_view:raw', 'avdtp_spec_defined_reject']
     for label in floors:
         ctx.floor(label, 3 if ctx.quick else 1)
     # boundary classes the property names; the plain loops are sharded, so a single shard holds a share of them
@@ -3062,6 +3647,9 @@ def run(ctx) -> None:
         ctx.floor(f'sdp_size:{size}', 0 if share else 4)
     for d in (0, 1, 5, 10, 20):
         ctx.floor(f'sdp_depth:{d}', 0 if share else 1)
+    for k in (0, 1, 255, 256, 65535):  # enumerated in every shard
+        ctx.floor(f'l2cap_pdu_len:{k}', 1)
+        ctx.floor(f'avrcp_pdu_len:{k}', 1)
     for cc in (0, 1, 2, 15):
         ctx.floor(f'rtp_cc:{cc}', 0 if share else 1)
 
@@ -3170,11 +3758,15 @@ _REPLAYERS = {
     'avc': check_avc,
     'ertm': check_ertm,
     'psm': check_psm,
+    'l2cap_pdu': check_l2cap_pdu,
+    'l2cap_options': check_l2cap_options,
     'sdp_element': check_element,
     'rfcomm': check_rfcomm,
     'mcc': check_mcc,
     'caps': check_caps,
     'avctp': check_avctp,
+    'avrcp_pdu': check_avrcp_pdu,
+    'avdtp_unregistered': check_avdtp_unregistered,
     'rtp': check_rtp,
     'ad_typed': check_ad_typed,
     'ad': check_ad,
